@@ -264,3 +264,35 @@ func VerifC05_long() {
 	}
 	vfAssert(recs[want-1][0] == "last", "field-roundtrip")
 }
+
+// VerifC05_rerender: a wrapper rendered again (unchanged, or after another row was added) gives the
+// whole table again: header record first, then one record per row.
+func VerifC05_rerender() {
+	t := New()
+	h := vfString("h", 1, vfBYTES)
+	t.AddHeaders("h1", h)
+	t.AddRowItems("a", "b")
+	out1, err := t.Render()
+	vfAssert(err == nil, "render-ok")
+	want := 2
+	if vfChoice("grow", 2) == 1 {
+		t.AddRowItems("c")
+		want = 3
+	}
+	out2, err2 := t.Render()
+	vfAssert(err2 == nil, "render-ok")
+	if want == 2 {
+		vfAssert(out2 == out1, "repeat-render-same")
+	}
+	recs, ok := vf4180Parse(out2)
+	vfAssert(ok, "parses-strictly")
+	vfAssert(vfOr(!ok, len(recs) == want), "record-count")
+	if !ok || len(recs) != want {
+		return
+	}
+	vfAssert(len(recs[0]) == 2, "field-count")
+	if len(recs[0]) != 2 {
+		return
+	}
+	vfAssert(vfAnd(recs[0][0] == "h1", recs[0][1] == h), "header-record-first")
+}
